@@ -507,9 +507,11 @@ class MeshRegion:
             self.equilibriumRegion.resetNonorthogonalOptions(nonorthogonal_settings)
 
         def surface_vec(i_contour, contour, lower):
-            psi_sep = self.meshParent.equilibrium.psi_sep[0]
-            contour_is_separatrix = (
+            # A contour on any separatrix is the edge shared by two radially adjacent
+            # regions, which must both place the same points on it
+            contour_is_separatrix = any(
                 numpy.abs((contour.psival - psi_sep) / psi_sep) < 1.0e-9
+                for psi_sep in self.meshParent.equilibrium.psi_sep
             )
 
             if contour_is_separatrix:
